@@ -190,3 +190,31 @@ Theorem C05_unbounded_path : forall W sem, wf W -> sem_nonblank_weak W sem -> st
        = snd (evaluate W sem (fst (evaluate W sem s r)) (nth (i * cols + j) (wb_deps W p) 0)).
 Proof. exact unbounded_path_weak. Qed.
 Print Assumptions C05_unbounded_path.
+
+(* the list form IS the history "Evaluate a1; ...; Evaluate ak" of C05_order (no
+   hypotheses): the order theorems above apply to address lists as they are *)
+Theorem C05_list_is_history : forall W sem l s,
+  evaluate_list W sem s l = run W sem s (map Evaluate l).
+Proof. exact evaluate_list_run. Qed.
+Print Assumptions C05_list_is_history.
+
+(* after ANY two Build/Evaluate histories (not only permutations of each other)
+   the two final caches agree on every input cell and on every cell that holds
+   a value in both: that value is the from-scratch value *)
+Theorem C05_states_agree : forall W sem, wf W -> sem_nonblank_weak W sem -> stored_ok W sem ->
+  forall s h1 h2 m, Inv W sem s -> Forall (be_op W) h1 -> Forall (be_op W) h2 -> m < wb_n W ->
+    (wb_input W m = true \/ (st_cache (fst (run W sem s h1)) m <> VNone
+                             /\ st_cache (fst (run W sem s h2)) m <> VNone)) ->
+    st_cache (fst (run W sem s h1)) m = st_cache (fst (run W sem s h2)) m
+    /\ st_cache (fst (run W sem s h1)) m = spec W sem (st_cache s) m.
+Proof. exact states_agree_weak. Qed.
+Print Assumptions C05_states_agree.
+
+(* the side conditions of C05_permutation / C05_same_members hold at the start
+   and after every address list *)
+Theorem C05_settled : forall W sem, wf W -> sem_nonblank_weak W sem -> stored_ok W sem ->
+  settled W (init W) /\ Inv W sem (init W)
+  /\ forall s l, Inv W sem s -> settled W s -> ltN W l ->
+       settled W (fst (evaluate_list W sem s l)) /\ Inv W sem (fst (evaluate_list W sem s l)).
+Proof. exact settled_weak. Qed.
+Print Assumptions C05_settled.
